@@ -144,6 +144,8 @@ Proof.
     eapply stable_trans; [exact S1|]. eapply stable_trans; [exact S2|].
     eapply stable_trans; [apply (stable_same s2 s3); reflexivity|]. eapply stable_trans; [exact S4|].
     apply stable_same. destruct (get_set _ h); reflexivity.
+  - unfold store_add_key. destruct (ref_set s d) as [h|]; [|apply stable_refl].
+    destruct (get_set s h) as [ds|]; [|apply stable_refl]. destruct (dset_add_key ds tok) as [d' r]. apply stable_same. reflexivity.
 Qed.
 
 (* over any continuation of a history: what an annotation targets is what it was created with *)
